@@ -25,6 +25,12 @@
   The lemmas `gen_*_unfold`, `loop_unfold`, `wb_loop_cons`, `wb_loop_nil`, `wb_loop2_eq` state the
   syntactic shape of the generated definitions (proved by `rfl`/unfolding); they are the first
   thing that breaks when the Go source changes.
+  ParserBuffer half: every proof below goes through a lemma `gen_*_spec` / `gen_grow_unfold` /
+  `*_canon` stating the generated function (applied to arguments) equal to a canonical form chosen
+  here; those lemmas are proved from the defining equation only (`unfold`, push binds into `if`s,
+  `split` everything, linear arithmetic: tactics `gen_eq2` / `gen_eq3`), so that behaviour-preserving
+  rewrites of parser_buffer.go (swapped arms, early returns, De Morgan, hoisted locals, reordered
+  independent assignments) do not break them.
   Part of the split of the former LzProofs/GenBufProps.lean (the generated code is emitted per
   topic: LzModel/Generated/CodePBuf.lean, CodeDBuf.lean, CodeSlicePrelude.lean, CodeErrVars.lean),
   so that a construct the translator refuses in decoder_buffer.go does not take the ParserBuffer
@@ -39,6 +45,34 @@ set_option linter.unusedVariables false
 
 namespace LZ.GenBuf
 open LZ LZ.Gen
+
+/-- "generated = canonical form" for straight-line functions: push `Res.bind` into the `if`s, split
+    every `if` of both sides FIRST (rewriting the conditions first, e.g. by `Int.ofNat_eq_natCast`,
+    leaves their `Decidable` instances behind and `split` then fails), then normalise hypotheses and
+    leaves; a pair of branches is either contradictory (linear arithmetic) or has equal leaves -/
+macro "gen_eq2" : tactic =>
+  `(tactic| ((try simp only [bind_ite, bind_ok]) <;> (repeat' split) <;>
+      (try simp only [Int.ofNat_eq_natCast, Slice.cap] at *) <;> gen_eq_leaf))
+
+/-- `Res.bind` is associative (normal form: binds nested to the right) -/
+theorem res_bind_assoc {α β γ : Type} (x : Res α) (f : α → Res β) (g : β → Res γ) :
+    Res.bind (Res.bind x f) g = Res.bind x (fun a => Res.bind (f a) g) := by
+  cases x <;> rfl
+
+macro "gen_eq3_leaf" : tactic =>
+  `(tactic| first
+    | rfl
+    | (exfalso; first | omega | contradiction)
+    | (congr <;> first | rfl | omega)
+    | (congr 1; funext _; (try simp only [bind_ite, bind_ok]) <;> (repeat' split) <;>
+        (try simp only [Int.ofNat_eq_natCast, Slice.cap] at *) <;>
+        first | rfl | (exfalso; first | omega | contradiction) | (congr <;> first | rfl | omega)))
+
+/-- as `gen_eq2`, for functions with joins (`Res.bind (if …) fun join => …`): also reassociates the
+    binds, and splits the `if`s under the binder of the last continuation -/
+macro "gen_eq3" : tactic =>
+  `(tactic| ((try simp only [res_bind_assoc, bind_ite, bind_ok]) <;> (repeat' split) <;>
+      (try simp only [Int.ofNat_eq_natCast, Slice.cap] at *) <;> gen_eq3_leaf))
 
 /-! ## ParserBuffer -/
 
@@ -59,13 +93,26 @@ def ofCfg (c : Gen.BufConfig) : BufCfg :=
 def ofPB (b : ParserBuffer) : PBuf :=
   { data := b.Data.data, w := b.W.toNat, off := b.Off.toNat, cap := b.Data.cap, cfg := ofCfg b.BufConfig }
 
+/-- what `Shrink` computes (canonical form; from the defining equation only) -/
+theorem gen_shrink_spec (b : ParserBuffer) :
+    ParserBuffer_Shrink b =
+      if b.W - b.BufConfig.ShrinkSize ≤ 0 then Res.ok (b, (0 : Int))
+      else
+        Res.bind (Slice.slice b.Data (b.W - b.BufConfig.ShrinkSize) (Int.ofNat b.Data.len)) fun t_1 =>
+        Res.bind (Slice.slice (Slice.copy b.Data t_1).1 0 (Slice.copy b.Data t_1).2) fun t_3 =>
+        Res.ok ({ b with Data := t_3, W := b.BufConfig.ShrinkSize,
+                         Off := b.Off + (b.W - b.BufConfig.ShrinkSize) }, b.W - b.BufConfig.ShrinkSize) := by
+  unfold ParserBuffer_Shrink
+  gen_eq3
+
 /-- B01 `Shrink` -/
 theorem gen_pbuf_shrink (b : ParserBuffer) (h : PBWF b) (hw : b.W - b.BufConfig.ShrinkSize ≤ b.Data.len) :
     ∃ b', ParserBuffer_Shrink b = Res.ok (b', ((PBuf.shrink (ofPB b)).2 : Int))
       ∧ ofPB b' = (PBuf.shrink (ofPB b)).1 ∧ PBWF b' := by
   obtain ⟨hd, hw0, ho0, hs0, hb0⟩ := h
   have hd' : b.Data.len ≤ b.Data.arr.length := hd
-  unfold ParserBuffer_Shrink PBuf.shrink
+  rw [gen_shrink_spec]
+  unfold PBuf.shrink
   by_cases hle : b.W - b.BufConfig.ShrinkSize ≤ 0
   · have : (ofPB b).w ≤ (ofPB b).cfg.shrinkSize := by
       simp only [ofPB, ofCfg]; omega
@@ -90,7 +137,7 @@ theorem gen_pbuf_shrink (b : ParserBuffer) (h : PBWF b) (hw : b.W - b.BufConfig.
 /-- B01' where the model is total but the Go code panics: `W - ShrinkSize > len(Data)` -/
 theorem gen_pbuf_shrink_panic (b : ParserBuffer) (h : PBWF b) (hw : b.W - b.BufConfig.ShrinkSize > b.Data.len) :
     ParserBuffer_Shrink b = Res.panic := by
-  unfold ParserBuffer_Shrink
+  rw [gen_shrink_spec]
   have hle : ¬ b.W - b.BufConfig.ShrinkSize ≤ 0 := by omega
   simp only [hle, if_false]
   rw [slice_panic]; · rfl
@@ -117,8 +164,7 @@ theorem gen_ParserBuffer_ByteAt_canon (b : ParserBuffer) (off : Int) :
     ParserBuffer_ByteAt b off = ParserBuffer_ByteAt_canon b off := by
   first
   | rfl
-  | (simp only [ParserBuffer_ByteAt, ParserBuffer_ByteAt_canon, Slice.make, Slice.slice, Slice.index,
-      bind_ite, bind_ok, bind_panic, bind_fuel] <;> gen_eq)
+  | (unfold ParserBuffer_ByteAt ParserBuffer_ByteAt_canon; gen_eq2)
 
 /-- B02 `ByteAt` -/
 theorem gen_pbuf_byteAt (b : ParserBuffer) (h : PBWF b) (off : Int) :
@@ -165,8 +211,7 @@ theorem gen_ParserBuffer_PeekAt_canon (b : ParserBuffer) (n : Int) (off : Int) :
     ParserBuffer_PeekAt b n off = ParserBuffer_PeekAt_canon b n off := by
   first
   | rfl
-  | (simp only [ParserBuffer_PeekAt, ParserBuffer_PeekAt_canon, Slice.make, Slice.slice, Slice.index,
-      bind_ite, bind_ok, bind_panic, bind_fuel] <;> gen_eq)
+  | (unfold ParserBuffer_PeekAt ParserBuffer_PeekAt_canon; gen_eq2)
 
 /-- B03 `PeekAt` (for every `n`, also negative: the model is called with `n.toNat`) -/
 theorem gen_pbuf_peekAt (b : ParserBuffer) (h : PBWF b) (n off : Int) :
@@ -200,6 +245,14 @@ theorem gen_pbuf_peekAt (b : ParserBuffer) (h : PBWF b) (n off : Int) :
   · simp only [hin, not_false_eq_true, if_true, if_false]
     exact ⟨_, _, rfl, rfl, errOf_oob, Nat.le_refl _⟩
 
+/-- what `ReadAt` computes (canonical form; from the defining equation only) -/
+theorem gen_readAt_spec (b : ParserBuffer) (p : Slice) (off : Int) :
+    ParserBuffer_ReadAt b p off =
+      Res.bind (ParserBuffer_PeekAt b (Int.ofNat p.len) off) fun r =>
+        Res.ok ((Slice.copy p r.1).1, (Slice.copy p r.1).2, r.2) := by
+  unfold ParserBuffer_ReadAt
+  gen_eq3
+
 /-- B04 `ReadAt(p, off)`: the bytes the model reports as copied are the new head of `p`, the tail
     of `p` is unchanged, the count and the error agree -/
 theorem gen_pbuf_readAt (b : ParserBuffer) (h : PBWF b) (p : Slice) (hp : SWF p) (off : Int) :
@@ -209,7 +262,8 @@ theorem gen_pbuf_readAt (b : ParserBuffer) (h : PBWF b) (p : Slice) (hp : SWF p)
       errOf e = some (PBuf.readAt (ofPB b) p.len off).2 ∧
       p'.len = p.len ∧ p'.arr.length = p.arr.length := by
   obtain ⟨q, e, hq, hqd, hqe, hqw⟩ := gen_pbuf_peekAt b h (Int.ofNat p.len) off
-  unfold ParserBuffer_ReadAt PBuf.readAt
+  rw [gen_readAt_spec]
+  unfold PBuf.readAt
   have hn : (Int.ofNat p.len).toNat = p.len := by simp
   rw [hn] at hqd hqe
   simp only [hq, bind_ok]
@@ -244,7 +298,9 @@ theorem gen_grow_unfold (b : ParserBuffer) (t : Int) :
       else Res.bind (Slice.make (b.Data.len : Int) (growCapI t b.BufConfig.BufferSize)) fun t_1 =>
         Res.ok { b with Data := (Slice.copy t_1 b.Data).1 } := by
   unfold ParserBuffer_grow growCapI
-  simp only [Slice.cap, Int.ofNat_eq_natCast] <;> gen_eq
+  first
+  | gen_eq2
+  | (simp only [Slice.cap, Int.ofNat_eq_natCast] <;> gen_eq)
 
 theorem model_grow_unfold (m : PBuf) (t : Nat) :
     PBuf.grow m t =
@@ -299,47 +355,52 @@ theorem gen_pbuf_grow (b : ParserBuffer) (h : PBWF b) (t : Nat) :
 def errOfReset (e : Gen.Err) : Option LZ.Err :=
   if e = Gen.Err.ok then some .ok else if e = Gen.Err.error 1 then some .oversize else none
 
-/-- canonical form of `Gen.ParserBuffer_Reset`: the text the translator emitted when the proof below was
-    written; `gen_ParserBuffer_Reset_canon` re-proves "generated = canonical" on every build -/
-def ParserBuffer_Reset_canon (b : ParserBuffer) (data : Slice) : Res (ParserBuffer × Gen.Err) :=
-  if (Int.ofNat data.len) > b.BufConfig.BufferSize then
-    Res.ok (b, Gen.Err.error 1)
-  else
-  let b : ParserBuffer := { b with W := 0 }
-  let b : ParserBuffer := { b with Off := 0 }
-  if (Int.ofNat data.len) = 0 then
-    Res.bind (Slice.slice b.Data 0 (0 : Int)) fun t_1 =>
-    let b : ParserBuffer := { b with Data := t_1 }
-    Res.ok (b, Gen.Err.ok)
-  else
-  let margin : Int := (Int.ofNat data.len) + 7
-  Res.bind (
-    if margin > (Int.ofNat data.cap) then
-      Res.bind (
-        if margin > (Int.ofNat b.Data.cap) then
-          Res.bind (Slice.make (Int.ofNat data.len) margin) fun t_1 =>
-          let b : ParserBuffer := { b with Data := t_1 }
-          Res.ok b
-        else
-          Res.bind (Slice.slice b.Data 0 (Int.ofNat data.len)) fun t_2 =>
-          let b : ParserBuffer := { b with Data := t_2 }
-          Res.ok b) fun join_3 =>
-      let b : ParserBuffer := join_3
-      let r_4 := Slice.copy b.Data data
-      let b : ParserBuffer := { b with Data := r_4.1 }
-      Res.ok b
-    else
-      let b : ParserBuffer := { b with Data := data }
-      Res.ok b) fun join_5 =>
-  let b : ParserBuffer := join_5
-  Res.ok (b, Gen.Err.ok)
+/-- `s[i:j]` with `Int` bounds, as a conditional rewrite rule (`simp (disch := omega)`) -/
+theorem slice_ok_int (s : Slice) (i j : Int) (hi : 0 ≤ i) (hij : i ≤ j) (hj : j ≤ (s.arr.length : Int)) :
+    Slice.slice s i j = Res.ok { arr := s.arr.drop i.toNat, len := j.toNat - i.toNat } := by
+  have := slice_ok s i.toNat j.toNat (by omega) (by omega)
+  rwa [Int.toNat_of_nonneg hi, Int.toNat_of_nonneg (by omega)] at this
 
-theorem gen_ParserBuffer_Reset_canon (b : ParserBuffer) (data : Slice) :
-    ParserBuffer_Reset b data = ParserBuffer_Reset_canon b data := by
-  first
-  | rfl
-  | (simp only [ParserBuffer_Reset, ParserBuffer_Reset_canon, Slice.make, Slice.slice, Slice.index,
-      bind_ite, bind_ok, bind_panic, bind_fuel] <;> gen_eq)
+/-- `make([]byte, n, c)` with `Int` arguments, as a conditional rewrite rule -/
+theorem make_ok_int (n c : Int) (hn : 0 ≤ n) (hc : n ≤ c) :
+    Slice.make n c = Res.ok { arr := List.replicate c.toNat 0, len := n.toNat } := by
+  have := make_ok n.toNat c.toNat (by omega)
+  rwa [Int.toNat_of_nonneg hn, Int.toNat_of_nonneg (by omega)] at this
+
+/-- what `Reset` computes, case by case (conditions over `Nat`, no `Res.bind`, no slice expression
+    left); proved from the defining equation only: split every `if` as it comes, refute the
+    inconsistent combinations by linear arithmetic, evaluate the slice expressions by the
+    conditional rules above -/
+theorem gen_reset_spec (b : ParserBuffer) (data : Slice) (hd : SWF b.Data) (hdat : SWF data) :
+    ParserBuffer_Reset b data =
+      if (data.len : Int) > b.BufConfig.BufferSize then Res.ok (b, Gen.Err.error 1)
+      else if data.len = 0 then
+        Res.ok ({ b with W := 0, Off := 0, Data := { arr := b.Data.arr, len := 0 } }, Gen.Err.ok)
+      else if data.len + 7 ≤ data.arr.length then
+        Res.ok ({ b with W := 0, Off := 0, Data := data }, Gen.Err.ok)
+      else if data.len + 7 ≤ b.Data.arr.length then
+        Res.ok ({ b with W := 0, Off := 0,
+                         Data := (Slice.copy { arr := b.Data.arr, len := data.len } data).1 }, Gen.Err.ok)
+      else
+        Res.ok ({ b with W := 0, Off := 0,
+                         Data := (Slice.copy { arr := List.replicate (data.len + 7) 0, len := data.len } data).1 },
+                Gen.Err.ok) := by
+  have hd' : b.Data.len ≤ b.Data.arr.length := hd
+  have hdat' : data.len ≤ data.arr.length := hdat
+  have e7 : ((data.len : Int) + 7).toNat = data.len + 7 := by omega
+  have e7' : (7 + (data.len : Int)).toNat = data.len + 7 := by omega
+  unfold ParserBuffer_Reset
+  -- (no rewriting of the conditions before the `split`s: `simp only [Int.ofNat_eq_natCast]` leaves the
+  -- `Decidable` instances of the `if`s behind, and `split` / `bind_ite` then fail to match them)
+  try simp only [bind_ite, bind_ok]
+  repeat' split
+  all_goals try simp only [Int.ofNat_eq_natCast, Slice.cap] at *
+  all_goals first
+    | (exfalso; omega)
+    | rfl
+    | (simp (disch := omega) only [slice_ok_int, make_ok_int, bind_ok, Int.toNat_natCast, Int.toNat_zero,
+        List.drop_zero, Nat.sub_zero, Nat.sub_self, e7, e7'] <;>
+       first | rfl | (congr <;> omega))
 
 /-- B05 `Reset(data)`; `cap(data) - len(data)` is the model's `capExtra` -/
 theorem gen_pbuf_reset (b : ParserBuffer) (h : PBWF b) (data : Slice) (hdat : SWF data) :
@@ -352,9 +413,9 @@ theorem gen_pbuf_reset (b : ParserBuffer) (h : PBWF b) (data : Slice) (hdat : SW
   have hl := data_length hdat
   obtain ⟨B, hB⟩ : ∃ B : Nat, b.BufConfig.BufferSize = (B : Int) := ⟨b.BufConfig.BufferSize.toNat, by omega⟩
   have hbs : (ofPB b).cfg.bufferSize = B := by simp only [ofPB, ofCfg]; omega
-  rw [gen_ParserBuffer_Reset_canon]
-  unfold ParserBuffer_Reset_canon PBuf.reset
-  simp only [hl, hbs, hB, Int.ofNat_eq_natCast, Facts.margin, Slice.cap]
+  rw [gen_reset_spec b data hd hdat]
+  unfold PBuf.reset
+  simp only [hl, hbs, hB, Facts.margin, Slice.cap]
   by_cases h1 : data.len > B
   · have h1' : (data.len : Int) > (B : Int) := by omega
     simp only [h1, h1', if_true]
@@ -362,26 +423,35 @@ theorem gen_pbuf_reset (b : ParserBuffer) (h : PBWF b) (data : Slice) (hdat : SW
   · have h1' : ¬ (data.len : Int) > (B : Int) := by omega
     simp only [h1, h1', if_false]
     by_cases h2 : data.len = 0
-    · have h2' : (data.len : Int) = 0 := by omega
-      simp only [h2, h2', if_true]
-      have h0 : ((0 : Nat) : Int) = 0 := rfl
-      rw [← h0, slice_ok _ 0 0 (Nat.le_refl _) (Nat.zero_le _)]
-      simp only [bind_ok]
+    · simp only [h2, if_true]
       refine ⟨_, _, rfl, ?_, rfl, ⟨Nat.zero_le _, Int.le_refl _, Int.le_refl _, hs0, hb0⟩⟩
       simp [ofPB, Slice.data, Slice.cap]
-    · have h2' : ¬ (data.len : Int) = 0 := by omega
-      simp only [h2, h2', if_false]
-      by_cases h3 : data.len + 7 > data.arr.length
-      · have h3' : (data.len : Int) + 7 > (data.arr.length : Int) := by omega
-        have h3'' : data.len + 7 > data.len + (data.arr.length - data.len) := by omega
-        simp only [h3', h3'', if_true]
-        by_cases h4 : data.len + 7 > b.Data.arr.length
-        · have h4' : (data.len : Int) + 7 > (b.Data.arr.length : Int) := by omega
-          have h4'' : data.len + 7 > (ofPB b).cap := h4
-          simp only [h4', h4'', if_true]
-          have e7 : (data.len : Int) + 7 = ((data.len + 7 : Nat) : Int) := by omega
-          rw [e7, make_ok _ _ (by omega)]
-          simp only [bind_ok]
+    · simp only [h2, if_false]
+      by_cases h3 : data.len + 7 ≤ data.arr.length
+      · have h3'' : ¬ data.len + 7 > data.len + (data.arr.length - data.len) := by omega
+        simp only [h3, h3'', if_true, if_false]
+        refine ⟨_, _, rfl, ?_, rfl, ⟨hdat, Int.le_refl _, Int.le_refl _, hs0, by rw [hB]; omega⟩⟩
+        simp only [ofPB, Slice.cap, Int.toNat_zero]
+        congr 1; omega
+      · have h3'' : data.len + 7 > data.len + (data.arr.length - data.len) := by omega
+        simp only [h3, h3'', if_true, if_false]
+        by_cases h4 : data.len + 7 ≤ b.Data.arr.length
+        · have h4'' : ¬ data.len + 7 > (ofPB b).cap := by
+            show ¬ data.len + 7 > b.Data.arr.length; omega
+          simp only [h4, h4'', if_true, if_false]
+          have hz : SWF { arr := b.Data.arr, len := data.len } := by
+            show data.len ≤ b.Data.arr.length; omega
+          obtain ⟨_, hcd, hcl, hca⟩ := copy_spec _ data hz hdat
+          refine ⟨_, _, rfl, ?_, rfl, ⟨?_, Int.le_refl _, Int.le_refl _, hs0, by rw [hB]; omega⟩⟩
+          · simp only [ofPB, Slice.cap, hca, hcd, Int.toNat_zero, Nat.min_self]
+            congr 1
+            rw [List.take_of_length_le (by rw [hl]; exact Nat.le_refl _)]
+            rw [List.drop_of_length_le (by rw [data_length hz]; exact Nat.le_refl _), List.append_nil]
+          · show (Slice.copy _ _).1.len ≤ (Slice.copy _ _).1.arr.length
+            rw [hcl, hca]; exact hz
+        · have h4'' : data.len + 7 > (ofPB b).cap := by
+            show data.len + 7 > b.Data.arr.length; omega
+          simp only [h4, h4'', if_true, if_false]
           have hz : SWF { arr := List.replicate (data.len + 7) 0, len := data.len } := by
             show data.len ≤ (List.replicate (data.len + 7) (0 : UInt8)).length
             simp only [List.length_replicate]; omega
@@ -393,28 +463,6 @@ theorem gen_pbuf_reset (b : ParserBuffer) (h : PBWF b) (data : Slice) (hdat : SW
             rw [List.drop_of_length_le (by rw [data_length hz]; exact Nat.le_refl _), List.append_nil]
           · show (Slice.copy _ _).1.len ≤ (Slice.copy _ _).1.arr.length
             rw [hcl, hca]; simp only [List.length_replicate]; omega
-        · have h4' : ¬ (data.len : Int) + 7 > (b.Data.arr.length : Int) := by omega
-          have h4'' : ¬ data.len + 7 > (ofPB b).cap := h4
-          simp only [h4', h4'', if_false]
-          have h0 : ((0 : Nat) : Int) = 0 := rfl
-          rw [← h0, slice_ok _ 0 data.len (Nat.zero_le _) (by omega)]
-          simp only [bind_ok, List.drop_zero, Nat.sub_zero]
-          have hz : SWF { arr := b.Data.arr, len := data.len } := by
-            show data.len ≤ b.Data.arr.length; omega
-          obtain ⟨_, hcd, hcl, hca⟩ := copy_spec _ data hz hdat
-          refine ⟨_, _, rfl, ?_, rfl, ⟨?_, Int.le_refl _, Int.le_refl _, hs0, by rw [hB]; omega⟩⟩
-          · simp only [ofPB, Slice.cap, hca, hcd, Int.toNat_zero, Nat.min_self]
-            congr 1
-            rw [List.take_of_length_le (by rw [hl]; exact Nat.le_refl _)]
-            rw [List.drop_of_length_le (by rw [data_length hz]; exact Nat.le_refl _), List.append_nil]
-          · show (Slice.copy _ _).1.len ≤ (Slice.copy _ _).1.arr.length
-            rw [hcl, hca]; exact hz
-      · have h3' : ¬ (data.len : Int) + 7 > (data.arr.length : Int) := by omega
-        have h3'' : ¬ data.len + 7 > data.len + (data.arr.length - data.len) := by omega
-        simp only [h3', h3'', if_false, bind_ok]
-        refine ⟨_, _, rfl, ?_, rfl, ⟨hdat, Int.le_refl _, Int.le_refl _, hs0, by rw [hB]; omega⟩⟩
-        simp only [ofPB, Slice.cap, Int.toNat_zero]
-        congr 1; omega
 
 
 theorem growCapN_ge (t B : Nat) (h : t ≤ B) : t ≤ growCapN t B := by
@@ -438,6 +486,24 @@ def PBAgree (r : Res (ParserBuffer × Int × Gen.Err)) (m : PBuf × Nat × LZ.Er
   | .ok (b', n, e) => m.2.2 ≠ .panic ∧ ofPB b' = m.1 ∧ n = (m.2.1 : Int) ∧ errOf e = some m.2.2 ∧ PBWF b'
   | .panic => m.2.2 = .panic
   | .fuel => False
+
+/-- the part of `Write` after `p` has been cut to the available space (canonical form) -/
+def writeTail (g : Nat → Nat → Nat) (b : ParserBuffer) (p : Slice) (e : Gen.Err) : Res (ParserBuffer × Int × Gen.Err) :=
+  Res.bind (if ((b.Data.len : Int) + (p.len : Int)) + 7 > (b.Data.arr.length : Int)
+            then Res.bind (ParserBuffer_grow b ((b.Data.len : Int) + (p.len : Int))) fun r_3 => Res.ok r_3
+            else Res.ok b) fun j =>
+    Res.ok ({ j with Data := Slice.append g j.Data p.data }, (p.len : Int), e)
+
+/-- what `Write` computes: cut `p` to the available space, then `writeTail`; from the defining
+    equation only (`gen_eq3`) -/
+theorem gen_write_spec (g : Nat → Nat → Nat) (b : ParserBuffer) (p : Slice) :
+    ParserBuffer_Write g b p =
+      if b.BufConfig.BufferSize - (b.Data.len : Int) < (p.len : Int) then
+        Res.bind (Slice.slice p 0 (b.BufConfig.BufferSize - (b.Data.len : Int))) fun q =>
+          writeTail g b q ErrFullBuffer
+      else writeTail g b p Gen.Err.ok := by
+  unfold ParserBuffer_Write writeTail
+  gen_eq3
 
 /-- the part of `Write` after `p` has been cut to the available space -/
 theorem write_tail (g : Nat → Nat → Nat) (b : ParserBuffer) (h : PBWF b) (p : Slice) (hp : SWF p)
@@ -517,8 +583,8 @@ theorem gen_pbuf_write (g : Nat → Nat → Nat) (b : ParserBuffer) (h : PBWF b)
   have hpl : p.data.length = p.len := data_length hp
   obtain ⟨B, hB⟩ : ∃ B : Nat, b.BufConfig.BufferSize = (B : Int) := ⟨b.BufConfig.BufferSize.toNat, by omega⟩
   have hbs : (ofPB b).cfg.bufferSize = B := by simp only [ofPB, ofCfg]; omega
-  unfold ParserBuffer_Write PBuf.write
-  simp only [Int.ofNat_eq_natCast, Slice.cap]
+  rw [gen_write_spec]
+  unfold PBuf.write writeTail
   by_cases h1 : (ofPB b).cfg.bufferSize < (ofPB b).data.length
   · simp only [h1, if_true]
     rw [hbs, hlen] at h1
@@ -550,6 +616,21 @@ theorem gen_pbuf_write (g : Nat → Nat → Nat) (b : ParserBuffer) (h : PBWF b)
       exact write_tail g b hwf p hp _ _ errOf_ok (by decide) (by rw [hbs]; omega)
 
 
+/-- what `Init` computes (canonical form; from the defining equation only) -/
+theorem gen_init_spec (b : ParserBuffer) (cfg : Gen.BufConfig) :
+    ParserBuffer_Init b cfg =
+      if BufConfig_Verify (BufConfig_SetDefaults cfg) ≠ Gen.Err.ok then
+        Res.ok (b, BufConfig_Verify (BufConfig_SetDefaults cfg))
+      else
+        Res.bind (Slice.slice b.Data 0 (0 : Int)) fun t_1 =>
+        Res.ok (({ Data := t_1, W := 0, Off := 0, BufConfig := BufConfig_SetDefaults cfg } : ParserBuffer),
+                Gen.Err.ok) := by
+  -- on the success path the source may return the (nil) `err` of `Verify` or `nil` itself
+  unfold ParserBuffer_Init
+  by_cases h : BufConfig_Verify (BufConfig_SetDefaults cfg) = Gen.Err.ok
+  · simp [h]
+  · simp [h]
+
 /-- B08 `Init(cfg)`: the configuration error is passed on and the buffer left alone; otherwise the
     buffer is the model's initial state, except that the capacity of the old `Data` is kept
     (`b.Data[:0]`; the model's `init` describes a zero `ParserBuffer`, capacity 0) -/
@@ -559,7 +640,7 @@ theorem gen_pbuf_init (b : ParserBuffer) (cfg : Gen.BufConfig) :
     (BufConfig_Verify (BufConfig_SetDefaults cfg) = Gen.Err.ok →
       ∃ b', ParserBuffer_Init b cfg = Res.ok (b', Gen.Err.ok) ∧
         ofPB b' = { PBuf.init (ofCfg (BufConfig_SetDefaults cfg)) with cap := b.Data.cap } ∧ PBWF b') := by
-  unfold ParserBuffer_Init
+  rw [gen_init_spec]
   refine ⟨fun hne => ?_, fun hok => ?_⟩
   · simp only [hne, ne_eq, not_false_eq_true, if_true]
   · have h0 : ((0 : Nat) : Int) = 0 := rfl
